@@ -179,6 +179,12 @@ def run_shards(modname: str, shards: list, ctx: Ctx, nworkers: int) -> tuple[Sha
                 continue
             d.pop("_wall", None)
             total.merge(ShardResult(**d))
+            if os.environ.get("VF_FAIL_FAST") and total.violations:
+                # mutation analysis only: the first violating shard decides; never set by the registered commands
+                for g in futs:
+                    g.cancel()
+                ex.shutdown(wait=False, cancel_futures=True)
+                break
     if unfinished:
         _isolated(modname, unfinished, ctx, total, errors, nworkers)
     return total, errors
